@@ -2,6 +2,7 @@ package kvql
 
 import (
 	"fmt"
+	"math"
 	"strconv"
 	"strings"
 )
@@ -298,6 +299,14 @@ func (o *ExpressionOptimizer) tryOptimizeFunctionCall(e *FunctionCallExpr) (Expr
 // without an exponent sign (1e+22 would be split at the +) and with a decimal
 // point (a whole value would be read back as an integer)
 func floatLiteral(f float64) string {
+	switch {
+	case math.IsNaN(f):
+		return "nan"
+	case math.IsInf(f, 1):
+		return "inf"
+	case math.IsInf(f, -1):
+		return "-inf"
+	}
 	ret := strconv.FormatFloat(f, 'f', -1, 64)
 	if !strings.Contains(ret, ".") {
 		ret += ".0"
